@@ -98,6 +98,18 @@ class Check:
         self.checker_cmds = []
         self.extra_trusted = []
         self.known = load_known(prop)
+        # A run against a scratch copy of the repository (tools/mutcheck.sh: VERIF_REPO != /repo) regenerates the files under
+        # lean/QmcModel/Generated from THAT copy; they are put back at the end (finish) so that the tree under /verif always
+        # holds the files generated from /repo itself (a stale generated file from a mutated copy once broke `./check --setup`).
+        self._saved_generated = None
+        if os.path.realpath(REPO) != "/repo":
+            gdir = os.path.join(LEAN, "QmcModel", "Generated")
+            self._saved_generated = {}
+            if os.path.isdir(gdir):
+                for fn in os.listdir(gdir):
+                    p = os.path.join(gdir, fn)
+                    if os.path.isfile(p):
+                        self._saved_generated[p] = open(p, "rb").read()
 
     # ---------------- obligations ----------------
     def oblige(self, name, ok, detail=""):
@@ -297,7 +309,18 @@ class Check:
         return fresh
 
     # ---------------- finish ----------------
+    def restore_generated(self):
+        if self._saved_generated:
+            for p, content in self._saved_generated.items():
+                try:
+                    if open(p, "rb").read() != content:
+                        open(p, "wb").write(content)
+                except OSError:
+                    open(p, "wb").write(content)
+            self._saved_generated = None
+
     def finish(self, rule, level="proof", extra_cov=None):
+        self.restore_generated()
         fresh = self.split_known()
         wall = time.time() - self.t0
         n_obl = len(self.obligations)
